@@ -384,3 +384,12 @@ def run(c, facts):
     c.shared(R5, c09.r3_cut_agree, 'C09.R3', facts)
     c.shared(R5, c09.r1_marker, 'C09.R1', facts)
     c.run(lambda c: c04.r5_status_conv(c, facts, rule='C01.R6'))
+    import inferrules as I
+    R7 = c.rule('C01.R7', 'UNIFIER-SOUND-STRUCTURE: arity compared before zipping, occurs before union, nested tags covered (shared with C07.R1-R4, R8)')
+    c.run(lambda c: I.tag_rec(c, facts, R7))
+    c.run(lambda c: I.occurs_before_union(c, facts, R7))
+    c.run(lambda c: I.arity(c, facts, R7))
+    c.run(lambda c: I.occurs_existential(c, facts, R7))
+    R8 = c.rule('C01.R8', 'NAMING and GRAPH-COMPLETE (shared with C09.R2, C09.R4): distinct definitions never share an implicit name; every use adds a dependency edge')
+    c.shared(R8, c09.r2_scoped_id, 'C09.R2', facts)
+    c.shared(R8, c09.r4_graph_complete, 'C09.R4', facts)
